@@ -159,7 +159,7 @@ class Sched:
                     raise Deadlock(info)
                 t = chooser(self.total_steps, runnable, last, self)
                 if last is not None and t is not last and last.state == "ready":
-                    self.trace.append(("preempt", self.total_steps, last.idx, t.idx, last.pending))
+                    self.trace.append(("preempt", self.total_steps, last.idx, t.idx, last.pending, len(self.log)))
                 last = t
                 self.total_steps += 1
                 t.sem.release()
@@ -330,6 +330,49 @@ class _SManager:
 
     def shutdown(self):
         pass
+
+
+# ---- caller-based dispatch: primitives created LATER by the code under test are shims too -----------------
+# (a refactoring may create its locks lazily, per identifier, at call time - after the constructor returned)
+
+_REAL_PRIMS = {}
+_MODE = ["shim"]     # "shim": Lock()/Condition()/Manager() called from a hashstore module give shims; "real": untouched
+
+
+def set_mode(mode):
+    _MODE[0] = mode
+
+
+def _called_from_store():
+    import sys
+    f = sys._getframe(2)
+    return str(f.f_globals.get("__name__", "")).startswith("hashstore")
+
+
+def install_dispatch():
+    """Idempotent.  threading.Lock / Condition and multiprocessing.Lock / Condition / Manager become factories that
+    hand the code under test (caller's module name starts with 'hashstore') a scheduler-aware shim whenever the
+    harness is in shim mode, and the real primitive to everybody else."""
+    if _REAL_PRIMS:
+        return
+    _REAL_PRIMS.update(tl=threading.Lock, tc=threading.Condition, ml=multiprocessing.Lock, mc=multiprocessing.Condition,
+                       mm=multiprocessing.Manager)
+
+    def mk(real_key, shim):
+        real = _REAL_PRIMS[real_key]
+
+        def factory(*a, **k):
+            if _MODE[0] == "shim" and _called_from_store():
+                return shim(*a, **k)
+            return real(*a, **k)
+        factory.__name__ = getattr(real, "__name__", real_key)
+        factory.__wrapped__ = real
+        return factory
+    threading.Lock = mk("tl", SLock)
+    threading.Condition = mk("tc", SCondition)
+    multiprocessing.Lock = mk("ml", SLock)
+    multiprocessing.Condition = mk("mc", SCondition)
+    multiprocessing.Manager = mk("mm", lambda *a, **k: _SManager())
 
 
 @contextlib.contextmanager
